@@ -419,3 +419,89 @@ Definition view_ok_field (sub : layout) (bits : Z) : bool :=
   | ELeaf s vw ms => if vw then negb (sgn s) else memz bits ms
   | _ => true
   end.
+
+(* ------------------------------------------------------------------ Layout.const with every initialiser kind
+   Field initialisers may also be amaranth hdl.Const objects (used as they are: their own width/signedness; the
+   per-field clear/insert mask of Layout.const is built from the FIELD width) and lib.data.Const objects
+   (accepted by a layout-shaped field iff the layouts compare equal).  Enumeration members are XVal of their value;
+   Python sequences are XMap over the indices 0, 1, ... *)
+Inductive xinit :=
+| XVal (v : Z)
+| XMap (kvs : list (Z * xinit))
+| XConst (v : Z) (c : shape)          (* hdl.Const(v, c) *)
+| XDConst (l : layout) (raw : Z).     (* lib.data.Const(l, raw), 0 <= raw < 2^size *)
+
+(* Shape.cast(field.shape) *)
+Definition cast_shape (l : layout) : shape :=
+  match l with Leaf s => s | ELeaf s _ _ => s | _ => Sh (layout_size l) false end.
+(* Field.__eq__: same offset, same cast shape *)
+Definition field_eqb (a b : Z * layout) : bool :=
+  (fst a =? fst b) && shape_eqb (cast_shape (snd a)) (cast_shape (snd b)).
+(* Layout.__eq__: same size and dict(iter(self)) == dict(iter(other)); array keys are ints, all others strings *)
+Definition layout_eqb (l1 l2 : layout) : bool :=
+  let F1 := fields_of l1 in let F2 := fields_of l2 in
+  (layout_size l1 =? layout_size l2) && Nat.eqb (length F1) (length F2) &&
+  forallb (fun kf => match assoc (fst kf) F2 with Some f => field_eqb (snd kf) f | None => false end) F1 &&
+  (Bool.eqb (is_array l1) (is_array l2) || Nat.eqb (length F1) 0).
+
+Section GFold.
+  Context {I : Type}.
+  Variable fi : layout -> I -> resz.
+  (* the loop of Layout.const, for any way `fi` of turning a field initialiser into the inserted integer *)
+  Fixpoint gfold (l : layout) (kvs : list (Z * I)) (cur : Z) : resz :=
+    match kvs with
+    | [] => Okz cur
+    | (k, x) :: r =>
+        match field_of l k with
+        | None => Errz 3
+        | Some (off, sub) =>
+            match fi sub x with
+            | Okz v => gfold l r (upd off (layout_size sub) cur v)
+            | e => e
+            end
+        end
+    end.
+End GFold.
+
+(* key_value after the conversions in the loop body (its .value; NOT yet reduced to the field width) *)
+Definition xfield_init (rec : layout -> xinit -> resz) (sub : layout) (x : xinit) : resz :=
+  let eqchk l' raw := if layout_eqb sub l' then Okz raw else Errz 3 in
+  match sub with
+  | Leaf s =>
+      match x with
+      | XVal v => Okz (norm s v)              (* hdl.Const(v, field shape) *)
+      | XConst v c => Okz (norm c v)          (* an hdl.Const is taken as it is *)
+      | _ => Errz 4
+      end
+  | ELeaf s vw ms =>
+      let of_value v c :=                     (* cls(Value): EnumView(cls, value) / the value itself *)
+        if vw then (if shape_eqb c s then Errz 5 else Errz 4) else Okz (norm s (norm c v)) in
+      match x with
+      | XVal v => if memz v ms then Okz (norm s v) else Errz 3
+      | XConst v c => of_value v c
+      | XDConst l' raw => of_value raw (Sh (layout_size l') false)
+      | XMap _ => Errz 3
+      end
+  | _ =>
+      match x with
+      | XMap _ => rec sub x
+      | XVal _ => Errz 4
+      | XConst v c => if is_union sub && (1 <? width c) then Errz 5 else Errz 4      (* len(init) *)
+      | XDConst l' raw =>
+          if is_union sub then
+            match l' with
+            | Array _ n => if 1 <? Z.of_nat n then Errz 5 else eqchk l' raw
+            | _ => Errz 4                       (* len() of a non-array lib.data.Const *)
+            end
+          else eqchk l' raw
+      end
+  end.
+
+Fixpoint xlayout_const (l : layout) (i : xinit) {struct i} : resz :=
+  match i with
+  | XMap kvs =>
+      if negb (is_layout l) then Errz 4
+      else if is_union l && (1 <? Z.of_nat (length kvs)) then Errz 3
+      else gfold (xfield_init (fun s x => xlayout_const s x)) l kvs 0
+  | _ => Errz 4
+  end.
